@@ -103,6 +103,9 @@ MUTANTS = [
      "            self.writePackedDataRecord(h, data, new_tpos)",
      "                data = None\n\n"
      "            self.writePackedDataRecord(h, data, new_tpos)"),
+    ('C13', 'undo-compares-blob-records-only', FS,
+     "                    if data_to_be_undone != current_data or \\\n                            self.is_blob_record(current_data):",
+     "                    if data_to_be_undone != current_data:"),
     ('C09', 'time-travel-open-uses-saved-index', FS,
      "        r = self._restore_index() if stop == b'\\377' * 8 else None",
      "        r = self._restore_index()"),
